@@ -3,7 +3,11 @@ package c05
 import (
 	"fmt"
 	"net/http"
+	"net/http/httptest"
+	"runtime"
 	"strings"
+
+	"github.com/0xReLogic/Helios/internal/adminapi"
 
 	"github.com/0xReLogic/Helios/internal/config"
 	"github.com/0xReLogic/Helios/internal/loadbalancer"
@@ -15,6 +19,10 @@ import (
 // weights, which is what the oracles are computed from (never from Helios's own state).
 type pool struct {
 	lb      *loadbalancer.LoadBalancer
+	cfg     *config.Config
+	admin   http.Handler // admin API mux on the same balancer (built on first use)
+	done    chan int     // statuses of requests that were parked by park()
+	nParked int
 	fn      *lab.FakeNet
 	nextID  int
 	names   []string       // members in the order they were added (removed ones deleted)
@@ -31,11 +39,12 @@ func eff(w int) int {
 }
 
 func newPool(strategy string, weights []int) (*pool, error) {
-	lb, err := loadbalancer.NewLoadBalancer(lab.BaseConfig(strategy, weights))
+	cfg := lab.BaseConfig(strategy, weights)
+	lb, err := loadbalancer.NewLoadBalancer(cfg)
 	if err != nil {
 		return nil, err
 	}
-	p := &pool{lb: lb, fn: lab.NewFakeNet(), weight: map[string]int{}, ejected: map[string]bool{}}
+	p := &pool{lb: lb, cfg: cfg, fn: lab.NewFakeNet(), weight: map[string]int{}, ejected: map[string]bool{}, done: make(chan int, 64)}
 	for i, w := range weights {
 		p.names = append(p.names, lab.BackendName(i))
 		p.weight[lab.BackendName(i)] = w
@@ -159,4 +168,115 @@ func everyWindowExact(seq []string, size int, want map[string]int) string {
 		}
 	}
 	return ""
+}
+
+// close releases whatever park() left in flight, waits for those requests and stops the balancer.
+func (p *pool) close() {
+	p.fn.ReleaseAll()
+	for ; p.nParked > 0; p.nParked-- {
+		<-p.done
+	}
+	p.lb.Stop()
+}
+
+// ---------------------------------------------------------------------------------------------
+// Observers: admin and monitoring calls on the same balancer. They are read-only by contract, so
+// interleaving them with the requests of a window must not change who gets which request.
+// ---------------------------------------------------------------------------------------------
+
+const nObservers = 8
+
+var observerNames = [nObservers]string{"admin GET /v1/health", "admin GET /v1/backends", "admin GET /v1/metrics", "MetricsHandler", "HealthHandler",
+	"lb.ListBackends", "lb.IsBackendHealthy(healthy members)", "GetMetrics"}
+
+func (p *pool) observe(kind int) {
+	get := func(h http.Handler, path string) {
+		h.ServeHTTP(httptest.NewRecorder(), httptest.NewRequest("GET", "http://admin.test"+path, nil))
+	}
+	if p.admin == nil {
+		p.admin = adminapi.NewMux(p.lb, p.cfg, p.lb.GetMetricsCollector())
+	}
+	switch ((kind % nObservers) + nObservers) % nObservers {
+	case 0:
+		get(p.admin, "/v1/health")
+	case 1:
+		get(p.admin, "/v1/backends")
+	case 2:
+		get(p.admin, "/v1/metrics")
+	case 3:
+		get(p.lb.GetMetricsCollector().MetricsHandler(), "/metrics")
+	case 4:
+		get(p.lb.GetMetricsCollector().HealthHandler(), "/health")
+	case 5:
+		_ = p.lb.ListBackends()
+	case 6:
+		for _, b := range p.lb.VerifBackends() {
+			if !p.ejected[b.Name] {
+				_ = p.lb.IsBackendHealthy(b)
+			}
+		}
+	case 7:
+		_ = p.lb.GetMetricsCollector().GetMetrics()
+	}
+}
+
+// obsPlan says which observer calls are interleaved with the requests of a window: before every
+// Period-th request one call, the kind cycling through all observers starting at Start.
+type obsPlan struct {
+	Period int `json:"period,omitempty"` // 0 = no observers
+	Start  int `json:"start,omitempty"`
+}
+
+// windowPick is pick() preceded by the plan's observer call for the i-th request of a window.
+func (p *pool) windowPick(via string, plan obsPlan, i int) (string, int) {
+	if plan.Period > 0 && i%plan.Period == 0 {
+		p.observe(plan.Start + i/plan.Period)
+	}
+	return p.pick(via)
+}
+
+// ---------------------------------------------------------------------------------------------
+// In-flight load. The number of requests a backend has in flight is an input to
+// least_connections only; round_robin and weighted_round_robin must ignore it.
+// ---------------------------------------------------------------------------------------------
+
+var inflightMagnitudes = []int{0, 1, 99, 100, 101, 500}
+
+// preload gives member name c more requests in flight through the exported gauge API.
+func (p *pool) preload(name string, c int) {
+	b := p.backend(name)
+	for i := 0; i < c; i++ {
+		b.IncrementConnections()
+	}
+}
+
+// park sends one request through ServeHTTP that stays in flight (parked inside the scripted
+// transport of whichever backend the strategy gives it to) until close(). It returns that backend
+// ("" if the request was not dispatched). It takes one turn of the strategy, like any request.
+func (p *pool) park() string {
+	for _, n := range p.names {
+		p.fn.Set(n+".test", lab.Park)
+	}
+	defer func() {
+		for _, n := range p.names {
+			p.fn.Set(n+".test", lab.Good)
+		}
+	}()
+	before := p.fn.Arrivals()
+	fin := make(chan int, 1)
+	go func() {
+		st, _, _, _ := lab.Serve(p.lb, pickReq())
+		fin <- st
+	}()
+	for p.fn.Arrivals() == before {
+		select {
+		case <-fin:
+			return "" // answered without reaching a backend
+		default:
+			runtime.Gosched()
+		}
+	}
+	p.nParked++
+	go func() { p.done <- <-fin }()
+	return hostName(p.fn.HostAt(before))
 }
